@@ -27,7 +27,9 @@ def command_property(prop, tier, seed, selkey=None, level="proof"):
         names = cmdprops.fuzzy_commands(repo, classes)
     rep = Report(prop, tier, seed, level, "./check %s --tier %s" % (prop, tier))
     rep.trusted = list(TRUSTED_MA)
-    results = cmdprops.verify_commands(list(names), root)
+    helpers = ["helper:" + h for h in cmdprops.HELPERS_FOR.get(prop, [])]
+    clauses = set(clauses) | {"helper"}
+    results = cmdprops.verify_commands(list(names) + helpers, root)
     pending = []  # (obligation record, command, case)
     for out in results:
         cmd = out["command"]
@@ -77,9 +79,19 @@ def command_property(prop, tier, seed, selkey=None, level="proof"):
     do_battery = tier == "thorough" or os.environ.get("PYVC_BATTERY", "1") == "1"
     if do_battery:
         btasks = []
+        undecided_cmds = set()
+        helper_undecided = False
+        for out in results:
+            if out.get("unsupported") or any(r["status"] not in ("unsat", "sat") for r in out["records"]):
+                if out.get("helper"):
+                    helper_undecided = True
+                else:
+                    undecided_cmds.add(out["command"])
         for n in names:
             if n in classes and n in SPECS:
-                for c in cmdprops.battery(repo, classes, n, tier, seed):
+                # a command whose proof is undecided gets the larger, more varied concrete search
+                focus = (n in undecided_cmds) or helper_undecided or tier == "thorough"
+                for c in cmdprops.battery(repo, classes, n, tier, seed, focus=focus and (tier == "thorough" or n in undecided_cmds or helper_undecided)):
                     btasks.append((n, c))
         t0 = time.time()
         bev = cmdprops.evaluate_cases(btasks, root)
@@ -103,8 +115,11 @@ def command_property(prop, tier, seed, selkey=None, level="proof"):
                                        "confirmed": True, "detail": {"note": "enumerated concrete input on which the real code violates the contract"}})
         rep.bounded = {"label": "bounded (never counted as proved)", "evaluations": len(btasks), "distinct_nontrivial": len(nontrivial),
                        "inadmissible_skipped": inadm, "failures": fails, "wall_s": round(time.time() - t0, 1),
-                       "rule": "per command %d generated cases (<=4 cells, rank 1-2, both dtypes, masks with loud payload, parameter grids); "
-                               "a case is non-trivial if it is inside the spec's admissible inputs; distinct by full input" % (12 if tier == "quick" else 60)}
+                       "focused_on": sorted(undecided_cmds),
+                       "rule": "per command 16 (quick) / 300 (thorough, or when the command's proof is undecided) generated cases: <=8 cells, "
+                               "rank 1-3, both dtypes, 1-5 inputs, none/same/staggered/random masks with loud or colliding payload, "
+                               "mixed shapes, parameter grids incl. out-of-range and absent optionals; a case is non-trivial if it is "
+                               "inside the spec's admissible inputs; distinct by full input"}
 
     def rerun(w):
         if not w or w.get("kind") != "command-case":
